@@ -56,6 +56,8 @@ TOTAL_PREFIX = (
     'core::slice::<impl [T]>::get', 'core::slice::<impl [T]>::first', 'core::slice::<impl [T]>::last',
     'core::slice::<impl [T]>::is_empty', 'core::slice::<impl [T]>::contains', 'alloc::vec::Vec::<T, A>::is_empty',
     'alloc::vec::Vec::<T, A>::as_slice', 'alloc::vec::Vec::<T, A>::as_mut_slice', 'alloc::vec::Vec::<T, A>::with_capacity',
+    # char classification / conversion (to_digit panics only for a radix above 36; every radix in this crate is a literal 10)
+    'core::char::methods::<impl char>::',
 )
 TOTAL_CONTAINS = (' as core::iter::traits::', ' as core::ops::deref::Deref', ' as core::cmp::', ' as core::clone::Clone>',
                   ' as core::ops::try_trait::', ' as core::convert::', ' as alloc::string::ToString>', ' as core::fmt::',
@@ -365,6 +367,13 @@ class Auditor:
                 return (min(ds), max(ds))
             return None
         if t == 'field':
+            # the element of a `for i in a..b` loop: 0 <= i < b
+            if e[2] == '0' and e[1][0] == 'variant' and e[1][2] == 'Some' and e[1][1][0] == 'call' and 'Range' in str(e[1][1][1]) and depth < 30:
+                end_ = self.range_elem(e, s)
+                if end_ is not None:
+                    re_ = self.rng(tnorm(self.il.inline(end_)), s, blk, env, d)
+                    if re_ and re_[1] >= 1:
+                        return (0, re_[1] - 1)
             if e[2] == '0' and e[1][0] == 'bin' and False:
                 return None
             ty = self.type_of(e, s)
@@ -443,6 +452,14 @@ class Auditor:
                             if (a_ == x and b_[0] == 'int' and b_[1] == 0) or (b_ == x and a_[0] == 'int' and a_[1] == 0):
                                 return (0, bits - 1)
                 return (0, bits)
+            if name in ('unwrap', 'expect', 'unwrap_or') and e[2] and isinstance(e[2][0], tuple) and e[2][0] and e[2][0][0] == 'call' and \
+                    e[2][0][1].endswith('::to_digit') and len(e[2][0][2]) == 2 and e[2][0][2][1][0] == 'int':
+                # char::to_digit(radix) is Some(d) with d < radix
+                hi_ = e[2][0][2][1][1] - 1
+                if name == 'unwrap_or' and len(e[2]) == 2:
+                    o_ = self.rng(e[2][1], s, blk, env, d)
+                    return (0, max(hi_, o_[1])) if o_ else None
+                return (0, hi_)
             if c.startswith('core::num::<impl ') and name.startswith('wrapping_'):
                 ty = c[len('core::num::<impl '):].split('>')[0]
                 return (0, TYMAX.get(ty, U64))
@@ -458,6 +475,18 @@ class Auditor:
                 k = self.str_slice_len(e[2][0]) if e[2] else None
                 if k is not None:
                     return (k, k)
+                # length of a constant array (`ALL_RANKS.len()`): from its type `[T; N]`
+                a0 = norm(e[2][0]) if e[2] else None
+                while isinstance(a0, tuple) and a0 and a0[0] in ('constref', 'deref') :
+                    a0 = a0[1]
+                if isinstance(a0, tuple) and a0 and a0[0] == 'array' and isinstance(a0[1], tuple):
+                    return (len(a0[1]), len(a0[1]))
+                if isinstance(a0, tuple) and a0 and a0[0] == 'constdef':
+                    cdef = self.f.consts.get(a0[1]) or {}
+                    import re as _re
+                    mm_ = _re.search(r';\s*(\d+)\]\s*$', str(a0[2] if len(a0) > 2 and isinstance(a0[2], str) else cdef.get('ty', '')))
+                    if mm_:
+                        return (int(mm_.group(1)), int(mm_.group(1)))
                 return (0, (1 << 63) - 1)
             if c in self.f.bodies and '::{' not in c:
                 r = self.ret_range(c)
@@ -950,6 +979,14 @@ class Auditor:
             for gg in guards(s, blk):
                 if gg['cond'] is not None and norm(gg['cond']) == ('discr', x) and gg['vals'] == [1]:
                     return 'guard: matched Some on the same value'
+            # `c.to_digit(10)` is Some for a character known to be a decimal digit (a `'1'..='8'` arm, say)
+            if x[0] == 'call' and x[1].endswith('::to_digit') and len(x[2]) == 2 and x[2][1][0] == 'int' and x[2][1][1] >= 10:
+                rc = self.rng(tnorm(self.il.inline(x[2][0])), s, blk, env)
+                if rc is None:
+                    vals_ = self.in_set(norm(x[2][0]), env)
+                    rc = (min(vals_), max(vals_)) if vals_ else None
+                if rc and 48 <= rc[0] and rc[1] <= 57:
+                    return 'guard: the character is in %s..=%s, a decimal digit' % (chr(rc[0]), chr(rc[1]))
             # colour of a square that piece_on just found occupied (the occupancy views agree on every Board: C03.R1)
             m = match(call('board::Board::color_on', V('b'), V('sq')), x)
             if m is not None:
@@ -1062,6 +1099,26 @@ def callers_guard(aud, key, callee_arg_pat, entries_reach):
     return ok and n > 0, n
 
 
+def self_lent(s, a):
+    """is an operand of assert `a` a loop-carried local that some call of a crate function receives by `&mut`?"""
+    roots = {x[2] for o in a['ops'] for x in walk(norm(o)) if isinstance(x, tuple) and len(x) == 3 and x[0] == 'loop' and isinstance(x[2], tuple)}
+    if not roots:
+        return False
+    facts = s.body.facts
+    for c in s.calls:
+        if c['callee'] in facts.bodies and '::{closure' not in c['callee']:
+            for a_, o_ in zip(c['args'], c['term'].get('args', [])):
+                if a_[0] == 'ref' and not a_[2] and a_[1] in roots:
+                    return True
+                # a temporary `&mut count` local
+                pl = o_.get('m') or o_.get('c')
+                if pl is not None and not pl.get('p') and str(s.body.locals[pl['l']]['ty']).startswith('&mut'):
+                    v_ = a_
+                    if v_[0] == 'ref' and v_[1] in roots:
+                        return True
+    return False
+
+
 def audit(ctx, R, entries, config='default'):
     aud = Auditor(ctx, R, config)
     f = aud.f
@@ -1090,6 +1147,16 @@ def audit(ctx, R, entries, config='default'):
                 # a private helper indexes with its own parameter or with the state behind it (`fn entry_mask(&self, i)`,
                 # `fn next_promotion(&mut self)` reading self.index): the bound is the callers' business
                 ctx.inconclusive(R, '%s: %s on a parameter of a private helper: the bound must come from its callers, which are not followed (%s)' % (
+                    k, a['kind'], ', '.join(sh(o, 70) for o in a['ops'])))
+            elif any(g_['cond'] is not None and any(isinstance(x, tuple) and x and x[0] == 'call' and isinstance(x[1], str) and (k + '::') in x[1] and '::{closure' not in x[1]
+                                                      for x in walk(norm(g_['cond']))) for g_ in guards(s, a['blk'])):
+                # the guard that makes this safe is encoded in a type declared inside the function (`state == State::Normal`)
+                ctx.inconclusive(R, '%s: %s behind a condition on a function-local type, which is not decoded (%s)' % (
+                    k, a['kind'], ', '.join(sh(o, 70) for o in a['ops'])))
+            elif a['kind'].startswith('overflow') and self_lent(s, a):
+                # the counter is also handed `&mut` to a crate helper inside the loop (`flush_empties(f, &mut count)` resets it):
+                # its value per iteration depends on that helper, which the range analysis does not follow
+                ctx.inconclusive(R, '%s: %s on a counter that a helper called in the loop may reset (%s)' % (
                     k, a['kind'], ', '.join(sh(o, 70) for o in a['ops'])))
             elif '::{closure#' in k and any(isinstance(x, tuple) and x and x[0] == 'param' for o in a['ops'] for x in walk(norm(o))):
                 # the operand is an argument of a closure: its range depends on the adaptor that calls the closure
